@@ -596,6 +596,16 @@ VARIANTS += [
 ]
 # ---- fourth round: rules derived from the mutation sweep and the fourth batch of seeded changes
 VARIANTS += [
+    M("dset-find-path-halving-chained", DSET, "        if self.parent[element] == element:\n            return element\n\n        self.parent[element] = self.find(self.parent[element])\n        return self.parent[element]",
+      "        while self.parent[element] != element:\n            element = self.parent[element] = self.parent[self.parent[element]]\n\n        return element", "CHAINED-ASSIGN-ORDER"),
+    M("triples-one-per-cherry", TREES, "        triples.update(tree_triples)\n", "        for triple in tree_triples:\n            if not any(t[:2] == triple[:2] for t in triples):\n                triples.add(triple)\n", "TRIPLES-SOURCE"),
+    M("proxy-update-gate-min", DP, "        if any(not (is_infinite(candidate.value)) for candidate in candidates):", "        if candidates and not is_infinite(min(candidate.value for candidate in candidates)):", "PROXY-UPDATE-GATE"),
+    M("layout-wrap-then-escape", LAYOUT, "                format_synteny(\n                    map(tex.escape, syntenies[root_gene]),\n                    params.event_label_width,\n                ).replace", "                tex.escape(format_synteny(\n                    syntenies[root_gene],\n                    params.event_label_width,\n                )).replace", "WRAP-AFTER-ESCAPE", "ESCAPE-TAINT"),
+    M("tikz-transfer-connector-child-colour", TIKZ, "                rf\"\"\"\\path[branch={{{get_color(branch.color)}}}] ({\n                    layout.branches[left_gene].anchor_parent : {MAX_DIGITS}\n                }) |- ({", "                rf\"\"\"\\path[branch={{{get_color(layout.branches[left_gene].color)}}}] ({\n                    layout.branches[left_gene].anchor_parent : {MAX_DIGITS}\n                }) |- ({", "DRAW-COLOR-OWN"),
+    M("topo-all-permutation-shortcut", TOPO, "    results = []\n\n    for node_from in starts:\n        next_starts = set(starts)", "    if len(starts) == len(graph):\n        return [list(p) for p in __import__(\"itertools\").permutations(starts)]\n\n    results = []\n\n    for node_from in starts:\n        next_starts = set(starts)", "ENUM-NO-TRUNCATION"),
+    M("model-syntenies-to-sets", MODEL, "            \"syntenies\": parse_synteny_mapping(\n                parent[\"input\"].object_tree,\n                data[\"syntenies\"],\n            ),", "            \"syntenies\": {node: set(syn) for node, syn in parse_synteny_mapping(\n                parent[\"input\"].object_tree,\n                data[\"syntenies\"],\n            ).items()},", "FIELD-SOURCE", "ORDER-PRESERVED"),
+    M("layout-hgt-remove-before-losses", LAYOUT, "                    conserv_gene = _add_losses(\n                        layout_state,\n                        conserv_gene,\n                        mapping[conserv_gene],\n                        root_species.up,\n                    )\n\n                    state[\"anchor_nodes\"].add(root_gene)\n                    state[\"anchor_nodes\"].remove(conserv_gene)",
+      "                    state[\"anchor_nodes\"].add(root_gene)\n                    state[\"anchor_nodes\"].discard(conserv_gene)\n                    conserv_gene = _add_losses(\n                        layout_state,\n                        conserv_gene,\n                        mapping[conserv_gene],\n                        root_species.up,\n                    )\n", "ANCHOR-SET"),
     M("dset-binary-order-test-flipped", DSET, "            elif second is None or groups[0] < second:", "            elif second is None or groups[0] > second:", "BINARY-COARSENINGS"),
     M("dset-binary-one-block-returns-itself", DSET, "            if not groups:\n                if first is None or second is None:\n                    return []", "            if not groups:\n                if first is None and second is None:\n                    return []", "BINARY-COARSENINGS"),
     M("dset-binary-no-symmetry-break", DSET, "            elif first is None or groups[0] > first:", "            elif True:", "BINARY-COARSENINGS"),
@@ -906,7 +916,7 @@ CANARY_RULES = (
     "KEY-GUARD", "HASH-IDENTITY", "COST-GUARD", "COPY-FAITHFUL", "NAME-AS-KEY", "ENUM-NO-TRUNCATION", "SET-ALGEBRA-ARGS",
     "LEAF-MAP-DOMAIN", "WIDTH-VERBATIM", "TOPO-VERDICT", "ROOT-ORDER-SOURCE",
     "CANDIDATE-GUARDS", "TREE-ITER-EXPLICIT", "STALE-INPUT", "HASH-CANONICAL", "NODE-OPAQUE", "UPDATE-ALL-CANDIDATES",
-    "COST-NO-ROUNDING", "MASK-RANGE", "GAIN-AT-LCA", "PRIVATE-INDEX", "ITERABLE-ONCE",
+    "COST-NO-ROUNDING", "MASK-RANGE", "GAIN-AT-LCA", "PRIVATE-INDEX", "ITERABLE-ONCE", "WRAP-AFTER-ESCAPE", "DRAW-COLOR-OWN", "PROXY-UPDATE-GATE", "CHAINED-ASSIGN-ORDER",
 )
 
 MEMO_CANARY = Variant(
